@@ -198,6 +198,7 @@ class HostGrammar:
             'tnames': tn, 'ntnames': names_nt, 'ruletext': texts,
             'lex': 'chars', 'obsT': True, 'obsC': True,
             'alpha': [ord(t) for t in self.src.ts],
+            'uterms': list(range(len(self.src.ts))),
         }
 
 
